@@ -17,6 +17,7 @@ RULE = ('seeded worlds with every outcome kind (several events per test, failing
         'Total line and the failure/error name lists are compared with the trace ground truth and '
         'between modes. distinct = digest of hook-site sequences + faults + completion order; '
         'non-trivial = a fault fired or children ran')
+RULE += (' ' + 'Later additions: test objects with countTestCases() of 2-4 (counted as such, the anchored testsRun adjustment).')
 BIAS = dict(p_weird_ids=0.15, p_multicount=0.08, n_test_faults=[0, 1, 2, 3, 4],
             n_layer_faults=[0, 0, 1, 2], p_import_fault=0.1,
             p_buffer=0.15, p_j=0.35, p_repeat=0.25, p_shuffle=0.15, v=[0, 1, 2, 3], p_occ=0.2,
